@@ -1209,6 +1209,8 @@ class Component(composites.Composite, metaclass=ComponentType):
         linkedDims = self._getLinkedDimsAndValues()
         composites.Composite.backUp(self)
         self._restoreLinkedDims(linkedDims)
+        # the links are part of the backed-up state (they are left out of the pickle only)
+        self._backupLinkedDims = (linkedDims, getattr(self, "_backupLinkedDims", None))
 
     def restoreBackup(self, paramsToApply):
         """
@@ -1217,7 +1219,12 @@ class Component(composites.Composite, metaclass=ComponentType):
         This needed to be overridden due to linked components which actually have a parameter value
         of another ARMI component.
         """
-        linkedDims = self._getLinkedDimsAndValues()
+        # take the current links out (they cannot go through the pickle machinery); the ones to put
+        # back are those that existed when the backup was made
+        self._getLinkedDimsAndValues()
+        linkedDims, self._backupLinkedDims = getattr(
+            self, "_backupLinkedDims", None
+        ) or ([], None)
         composites.Composite.restoreBackup(self, paramsToApply)
         self._restoreLinkedDims(linkedDims)
 
